@@ -200,6 +200,52 @@ def run(ctx):
         stats["references"] += refs
         stats["empty_shapes_kept"] += sum(1 for sh in parsed['shapes'] if not sh['stmts'])
         nontriv += refs > 0
+    # disjunctions (search only, the token-level model has none): shape-map shapes A, B, C; the nodes of A point to nodes of B and of C,
+    # the nodes of B share no feature, so that at a threshold above 1/|B| shape B loses every constraint and is removed: no alternative
+    # of a disjunction in A may keep naming it.  Both output formats.
+    from shexer.shaper import Shaper as _ShO
+    from shexer import consts as _CO
+    stats["disjunction_removal_cases"] = 0
+    for i in range(40 if ctx.tier == "quick" else 600):
+        nb, nc, na = rng.randint(2, 3), rng.randint(1, 3), rng.randint(2, 4)
+        g = []
+        for j in range(nb):
+            g.append((I('b%d' % j), EX + 'only_b%d' % j, L('v')))          # no shared feature
+        for j in range(nc):
+            g.append((I('c%d' % j), EX + 'label', L('c')))
+        for j in range(na):
+            g.append((I('a%d' % j), EX + 'knows', I('b%d' % rng.randrange(nb))))
+            g.append((I('a%d' % j), EX + 'knows', I('c%d' % rng.randrange(nc))))
+            if rng.random() < 0.5:
+                g.append((I('a%d' % j), EX + 'likes', I('b%d' % rng.randrange(nb))))
+        g = list(dict.fromkeys(g))
+        rng.shuffle(g)
+        sm = "".join("<%s%s>@<%sshape%s>\n" % (EX, n_, EX, n_[0].upper()) for n_ in ['a%d' % j for j in range(na)] + ['b%d' % j for j in range(nb)] + ['c%d' % j for j in range(nc)])
+        cfgd = gen.default_cfg()
+        cfgd.update(disable_or=False, allow_redundant_or=rng.random() < 0.5, th=rng.choice([(3, 5), (2, 3), (1, 1)]), remove_empty=True,
+                    inverse=rng.random() < 0.3, target_mode='none', targets=None)
+        kw = impl.shaper_kwargs(cfgd)
+        kw.pop('all_classes_mode', None); kw.pop('target_classes', None)
+        stats["disjunction_removal_cases"] += 1
+        for fmt in (_CO.SHEXC, _CO.SHACL_TURTLE):
+            try:
+                text = _ShO(raw_graph=to_nt(g), input_format=_CO.NT, shape_map_raw=sm, **kw).shex_graph(
+                    string_output=True, acceptance_threshold=cfgd['th'][0] / cfgd['th'][1], output_format=fmt)
+            except Exception as e:
+                viol.append({"what": "disjunctions + shape map + removal of empty shapes: %s %s" % (type(e).__name__, str(e)[:120]), "shape_map": sm,
+                             **pipeline.case_json(g, cfgd)})
+                break
+            if fmt == _CO.SHEXC:
+                check_shexc(text, g, cfgd, [], set(), viol)
+            else:
+                try:
+                    p = shacl_text.parse(text)
+                    for o in p['sh_node_objects']:
+                        if o not in p['declared']:
+                            viol.append({"what": "sh:node object (possibly inside sh:or) is not a declared sh:NodeShape", "object": o, "shacl": text,
+                                         "shape_map": sm, **pipeline.case_json(g, cfgd)})
+                except Exception as e:
+                    viol.append({"what": "SHACL with disjunctions not parseable: %s" % str(e)[:120], "shacl": text, **pipeline.case_json(g, cfgd)})
     # inputs that declare prefixes of their own (Turtle read by rdflib): the declarations of the document are merged into the
     # prefix map after the shapes prefix was chosen, so they can collide with it or with the caller's prefixes
     from shexer.shaper import Shaper as _Sh
